@@ -117,6 +117,12 @@ func (x *Ctx) queryRows(c *rosmar.Collection, stmt string, absKey func(string) s
 			x.crc.note(b)
 			r.Body = AbstractBody(b)
 		}
+		if v, ok := row["s"]; ok || strings.Contains(stmt, " AS s,") {
+			if !ok {
+				v = "-"
+			}
+			r.Vals = append(r.Vals, v)
+		}
 		if h, ok := row["xattrs"]; ok {
 			xb, _ := hex.DecodeString(h)
 			m := map[string][]byte{}
@@ -153,6 +159,8 @@ func (sr *seqRunner) observeAux(x *Ctx, coll string, suffix string, fresh, late 
 	add("q-all", x.queryRows(c, `SELECT json_quote(id) AS id, json_quote(hex(body)) AS body, json_quote(hex(xattrs)) AS xattrs FROM $_keyspace WHERE id LIKE `+like+` AND id NOT LIKE '~%' ORDER BY id`, absKey))
 	add("q-v", x.queryRows(c, `SELECT json_quote(id) AS id FROM $_keyspace WHERE id LIKE `+like+` AND id NOT LIKE '~%' AND json_valid(body) AND body->>'v' = 'J1' ORDER BY id`, absKey))
 	add("q-s", x.queryRows(c, `SELECT json_quote(id) AS id FROM $_keyspace WHERE id LIKE `+like+` AND id NOT LIKE '~%' AND xattrs->>'$._s.t' = 'x1' ORDER BY id`, absKey))
+	// a projection whose first column is NULL for documents without that xattr
+	add("q-null", x.queryRows(c, `SELECT xattrs->'$._s.t' AS s, json_quote(id) AS id FROM $_keyspace WHERE id LIKE `+like+` AND id NOT LIKE '~%' ORDER BY id`, absKey))
 	// which variant of the design document GetDDoc / GetDDocs report
 	{
 		ao := AuxObs{Rows: []AuxRow{}}
@@ -184,6 +192,13 @@ func (sr *seqRunner) observeAux(x *Ctx, coll string, suffix string, fresh, late 
 	add("viewdesc", x.viewRows(c, "vd", "v", map[string]any{"startkey": hi, "endkey": lo, "descending": true}, absKey, suffix))
 	add("viewlimit", x.viewRows(c, "vd", "v", map[string]any{"startkey": lo, "endkey": hi, "limit": 1}, absKey, suffix))
 	add("viewkey", x.viewRows(c, "vd", "v", map[string]any{"key": []any{suffix, "J1", nil}}, absKey, suffix))
+	// ranges that begin or end exactly on an emitted key, inclusive and exclusive, in both directions
+	piv := []any{suffix, "J1", nil}
+	add("viewxend", x.viewRows(c, "vd", "v", map[string]any{"startkey": lo, "endkey": piv, "inclusive_end": false}, absKey, suffix))
+	add("viewiend", x.viewRows(c, "vd", "v", map[string]any{"startkey": lo, "endkey": piv, "inclusive_end": true}, absKey, suffix))
+	add("viewfrom", x.viewRows(c, "vd", "v", map[string]any{"startkey": piv, "endkey": hi}, absKey, suffix))
+	add("viewxenddesc", x.viewRows(c, "vd", "v", map[string]any{"startkey": hi, "endkey": piv, "descending": true, "inclusive_end": false}, absKey, suffix))
+	add("viewfromdesc", x.viewRows(c, "vd", "v", map[string]any{"startkey": piv, "endkey": lo, "descending": true}, absKey, suffix))
 	add("viewcount", x.viewRows(c, "vd", "cnt", map[string]any{"startkey": lo, "endkey": hi, "reduce": true}, absKey, suffix))
 	if late {
 		add("viewlate", x.viewRows(c, "ld", "v", map[string]any{"startkey": lo, "endkey": hi}, absKey, suffix))
